@@ -153,6 +153,22 @@ def lag_jobs(rng, tier, mk_terms, add):
         add(norm(p), "rand")
 
 
+def slow_source_jobs(rng, tier, mk_terms, add):
+    """Free-running programs over a by-value iterator whose next() is slow: while one worker is
+    inside the source the others reserve their chunks and queue at the turnstile, and the source
+    reports 'nothing more' while reservations are still pending - interleavings the deterministic
+    scheduler (atomic pulls) cannot produce."""
+    for i in range(16 if tier == "quick" else 160):
+        src = rng.choice(("iter", "iter", "iterx", "deque", "hashset"))
+        sh = rng.choice(["", "m", "f", "o", "l", "mf"][: (6 if src in ("iter", "iterx") else 5)])
+        if len(sh) > SRC_MAXLEN[src]:
+            sh = sh[:1]
+        p = gen_prog(rng, src=src, shape=sh, n=rng.choice([9, 12, 16, 24]), nt=rng.choice([3, 4, 6]),
+                     cs=rng.choice([("cs", 1), ("cs", 2), ("cs", 3), ("csmin", 2), None]))
+        p["term"] = mk_terms[i % len(mk_terms)](rng, src, shape_of(p))
+        add(norm(p), "free", sleep_us=rng.choice([100, 300]) if src in ("iter", "iterx") else 0)
+
+
 def big_jobs(rng, tier, mk_terms, add):
     """Programs over 7*10^4..3*10^5 elements (digests instead of sequences): thresholds such as
     2^16 / 2^17 elements and the growth of SplitVec fragments are only crossed here. Systematic
@@ -230,6 +246,7 @@ def jobs_for(prop, tier, seed):
         jobs.append(mk_job(len(jobs) + 1, p, mode or mode_mix(rng), rng, **kw))
 
     if prop == "C01":
+        slow_source_jobs(rng, tier, [lambda r, s_, sh: collect_term(r, s_, sh)], add)
         lag_jobs(rng, tier, [lambda r, s_, sh: collect_term(r, s_, sh)], add)
         single_worker_jobs(rng, tier, add)
         matrix(rng, tier, [lambda r, s_, sh: collect_term(r, s_, sh)], add, reps=3)
@@ -239,23 +256,27 @@ def jobs_for(prop, tier, seed):
         for _ in range(n):
             add(with_term(rng, lambda r, s, sh: collect_term(r, s, sh)))
     elif prop == "C02":
+        slow_source_jobs(rng, tier, [find_term], add)
         lag_jobs(rng, tier, [find_term], add)
         matrix(rng, tier, [find_term], add, reps=3)
         for _ in range(n):
             add(with_term(rng, find_term, sizes=(0, 1, 2, 5, 8, 13, 24, 40, 64)))
     elif prop == "C03":
+        slow_source_jobs(rng, tier, [lambda r, s_, sh: {"k": "reduce", "op": r.choice(["add", "xor", "min", "max"])}, reduce_term], add)
         lag_jobs(rng, tier, [lambda r, s_, sh: {"k": "reduce", "op": r.choice(["add", "xor", "min", "max"])}], add)
         matrix(rng, tier, [reduce_term, lambda r, s_, sh: {"k": "reduce", "op": r.choice(["add", "xor", "min", "max"])}], add, reps=2)
         big_jobs(rng, tier, [lambda r, s_, sh: {"k": "reduce", "op": "add"}], add)
         for _ in range(n):
             add(with_term(rng, reduce_term))
     elif prop == "C04":
+        slow_source_jobs(rng, tier, [lambda r, s_, sh: {"k": "count"}, lambda r, s_, sh: {"k": "for_each"}], add)
         lag_jobs(rng, tier, [lambda r, s_, sh: {"k": "count"}, lambda r, s_, sh: {"k": "for_each"}], add)
         matrix(rng, tier, [lambda r, s_, sh: {"k": "count"}, lambda r, s_, sh: {"k": "for_each"}], add, reps=2)
         big_jobs(rng, tier, [lambda r, s_, sh: {"k": "count"}], add)
         for _ in range(n):
             add(with_term(rng, lambda r, s, sh: {"k": r.choice(["count", "for_each"])}))
     elif prop == "C05":
+        slow_source_jobs(rng, tier, [lambda r, s_, sh: any_term(r, s_, sh)], add)
         lag_jobs(rng, tier, [lambda r, s_, sh: any_term(r, s_, sh)], add)
         matrix(rng, tier, [lambda r, s_, sh: collect_term(r, s_, sh), lambda r, s_, sh: {"k": "collect_x"},
                            lambda r, s_, sh: {"k": "count"}, lambda r, s_, sh: {"k": "for_each"},
@@ -286,6 +307,7 @@ def jobs_for(prop, tier, seed):
             p["term"] = t
             add(norm(p))
     elif prop == "C07":
+        slow_source_jobs(rng, tier, [lambda r, s_, sh: {"k": "collect_x"}], add)
         lag_jobs(rng, tier, [lambda r, s_, sh: {"k": "collect_x"}], add)
         matrix(rng, tier, [lambda r, s_, sh: {"k": "collect_x"}], add)
         big_jobs(rng, tier, [lambda r, s_, sh: {"k": "collect_x"}], add)
@@ -373,6 +395,7 @@ def jobs_for(prop, tier, seed):
             p["term"] = {"k": "none" if big else rng.choice(["count", "collect_vec", "first", "none"])}
             add(norm(p), "free")
     elif prop == "C13":
+        slow_source_jobs(rng, tier, [lambda r, s_, sh: any_term(r, s_, sh)], add)
         lag_jobs(rng, tier, [lambda r, s_, sh: any_term(r, s_, sh)], add)
         matrix(rng, tier, [lambda r, s_, sh: any_term(r, s_, sh)], add)
         single_worker_jobs(rng, tier, add)
@@ -397,6 +420,7 @@ def jobs_for(prop, tier, seed):
                 continue
             add(p)
     elif prop == "C15":
+        slow_source_jobs(rng, tier, [lambda r, s_, sh: any_term(r, s_, sh)], add)
         lag_jobs(rng, tier, [lambda r, s_, sh: any_term(r, s_, sh)], add)
         capacity_sweep(rng, tier, add, 30)
         single_worker_jobs(rng, tier, add)
